@@ -3,10 +3,16 @@ From InvokeVerif Require Export Model.ExitModel Spec.C05Spec.
 
 Inductive case :=
 (** a real child process run through Local: how it was made to end, pty?,
-    warn, the raw wait status seen by Local (pty only), what run()/join() did *)
-| CReal (e : ending) (pty : bool) (warn : bool) (raw : option Z) (o : outcome)
-(** the real Runner._finish driven through a scripted subclass *)
-| CScripted (s : situation) (o : outcome)
+    where warn comes from (configuration x keyword), the raw wait status seen
+    by Local (pty only), what run()/join() did *)
+| CReal (e : ending) (pty : bool) (ws : warn_src) (raw : option Z) (o : outcome)
+(** the real Runner._finish driven through a scripted subclass; the [s_warn]
+    field of [s] is not used: warn is decided from [ws] (by the model for
+    [corr], by the property's reading for [spec]) *)
+| CScripted (s : situation) (ws : warn_src) (o : outcome)
+(** Program.run in-process on a task doing c.run("exit code", warn=kw), with /
+    without -w, run.warn configured on the collection or not *)
+| CProgRun (flag : bool) (cfg : option bool) (kw : kwopt) (code : Z) (o : prog_out)
 (** Program.run in-process *)
 | CProgram (e : prog_event) (o : prog_out)
 (** Local.returncode under a pty, handed the wait status [raw] the OS contract
@@ -50,7 +56,8 @@ Definition run_outcome (s : situation) : outcome :=
 
 Definition corr (c : case) : bool :=
   match c with
-  | CReal e pty warn raw o =>
+  | CReal e pty ws raw o =>
+      let warn := opts_warn ws in
       match pty, raw with
       | true, Some st =>
           raw_matches e st && outcome_eqb (finish 0 0 false false (pty_returncode st) warn) o
@@ -59,7 +66,8 @@ Definition corr (c : case) : bool :=
           outcome_eqb (finish 0 0 false false (Some (true_status e)) warn) o
       | _, _ => false
       end
-  | CScripted s o => outcome_eqb (run_outcome s) o
+  | CScripted s ws o => outcome_eqb (run_outcome (set_warn s (opts_warn ws))) o
+  | CProgRun flag cfg kw code o => prog_out_eqb (program_task_run flag cfg kw code) o
   | CProgram e o => prog_out_eqb (program_run e) o
   | CDecode e core raw d =>
       (raw =? match e with Exited c => exit_status c | Killed s => sig_status s core end)%Z &&
@@ -68,8 +76,10 @@ Definition corr (c : case) : bool :=
 
 Definition spec (c : case) : bool :=
   match c with
-  | CReal e pty warn raw o => spec_finish (mkSit 0 0 false false (true_status e) warn false false) o
-  | CScripted s o => spec_finish s o
+  | CReal e pty ws raw o =>
+      spec_finish (mkSit 0 0 false false (true_status e) (warn_requested ws) false false) o
+  | CScripted s ws o => spec_finish (set_warn s (warn_requested ws)) o
+  | CProgRun flag cfg kw code o => spec_task_run flag cfg kw code o
   | CProgram e o => spec_program e o
   | CDecode e core raw d =>
       (* the status reported is the true one, whether or not a core was dumped *)
